@@ -61,6 +61,8 @@ def main():
                     rc = r.returncode
                 finally:
                     sh("git -C %s checkout -- ." % R)
+                    # a run against a seeded change must not leave its evidence behind
+                    sh("git -C %s checkout -- evidence/%s.json" % (V, prop))
                 viol = [l for l in out.splitlines() if l.startswith("VIOLATION")]
                 kind = "missed"
                 if rc != 0 and viol:
